@@ -267,8 +267,10 @@ func levelModProps(fkey string) []string {
 
 // ---- RNSSTORE
 
-var reductionFuncs = map[string]bool{"MForm": true, "MFormLazy": true, "IMForm": true, "IMFormLazy": true, "MRed": true, "MRedLazy": true,
-	"BRed": true, "BRedLazy": true, "BRedAdd": true, "BRedAddLazy": true, "CRed": true, "ModExp": true, "ModexpMontgomery": true, "ModExpPow2": true}
+// the *Lazy variants return values in [0, 2q): not residues. MRedLazy is accepted because MulRNSScalar uses it on the
+// pinned tree and its consumers (Montgomery products) tolerate [0, 2q).
+var reductionFuncs = map[string]bool{"MForm": true, "IMForm": true, "MRed": true, "MRedLazy": true,
+	"BRed": true, "BRedAdd": true, "CRed": true, "ModExp": true, "ModexpMontgomery": true, "ModExpPow2": true}
 
 func isRNSScalar(t types.Type) bool {
 	n := namedOf(t)
@@ -346,6 +348,121 @@ func scanRNSStore(c *core.Ctx) []ob {
 		})
 	})
 	c.Stats["rnsstore_sites"] = n
+	return out
+}
+
+// ---- SCALARMUL
+//
+// A uint64 handed to a ring operation as its scalar operand is a representative of an integer that the operation
+// reduces modulo every prime. A product computed in native uint64 arithmetic (pow*x, pow *= x) is only correct modulo
+// 2^64: once it wraps, its residues modulo the primes are those of a different integer. Powers and products of
+// scalars therefore have to be formed by the ring (Horner with MulScalar, MulRNSScalar, ModExp), not by `*`.
+
+func scanScalarMul(c *core.Ctx) []ob {
+	var out []ob
+	n := 0
+	c.FuncDecls(func(pk *packages.Package, file *ast.File, fd *ast.FuncDecl) {
+		if fd.Body == nil || fileIsTestSupport(c.Program, fd.Pos()) || inExamples(pk) {
+			return
+		}
+		info := pk.TypesInfo
+		fkey := core.FuncKey(pk, fd)
+		// variables that receive a native product somewhere in the function
+		prodVar := map[types.Object]token.Pos{}
+		isU64 := func(e ast.Expr) bool {
+			t := info.TypeOf(e)
+			if t == nil {
+				return false
+			}
+			b, ok := t.Underlying().(*types.Basic)
+			return ok && b.Kind() == types.Uint64
+		}
+		constant := func(e ast.Expr) bool {
+			tv, ok := info.Types[e]
+			return ok && tv.Value != nil
+		}
+		var isProd func(e ast.Expr) bool
+		isProd = func(e ast.Expr) bool {
+			be, ok := unparen(e).(*ast.BinaryExpr)
+			if !ok {
+				return false
+			}
+			if be.Op == token.MUL && isU64(be) && !constant(be.X) && !constant(be.Y) {
+				return true
+			}
+			return false
+		}
+		ast.Inspect(fd.Body, func(x ast.Node) bool {
+			as, ok := x.(*ast.AssignStmt)
+			if !ok {
+				return true
+			}
+			for i, l := range as.Lhs {
+				id, ok := unparen(l).(*ast.Ident)
+				if !ok {
+					continue
+				}
+				o := info.Defs[id]
+				if o == nil {
+					o = info.Uses[id]
+				}
+				if o == nil {
+					continue
+				}
+				if as.Tok == token.MUL_ASSIGN && isU64(l) && !constant(as.Rhs[0]) {
+					prodVar[o] = as.Pos()
+				}
+				if len(as.Lhs) == len(as.Rhs) && isProd(as.Rhs[i]) {
+					prodVar[o] = as.Pos()
+				}
+			}
+			return true
+		})
+		ast.Inspect(fd.Body, func(x ast.Node) bool {
+			call, ok := x.(*ast.CallExpr)
+			if !ok {
+				return true
+			}
+			sel, ok := unparen(call.Fun).(*ast.SelectorExpr)
+			if !ok {
+				return true
+			}
+			rt := info.TypeOf(sel.X)
+			if rt == nil || !isRingLikeRecv(rt) {
+				return true
+			}
+			f := calleeFunc(info, call)
+			if f == nil {
+				return true
+			}
+			sig := f.Type().(*types.Signature)
+			for i, a := range call.Args {
+				if i >= sig.Params().Len() || !strings.HasPrefix(strings.ToLower(sig.Params().At(i).Name()), "scalar") && sig.Params().At(i).Name() != "pt" {
+					continue
+				}
+				if !isU64(a) {
+					continue
+				}
+				n++
+				key := fmt.Sprintf("SCALARMUL:%s#%s(%s)", fkey, f.Name(), exprString(a))
+				why := ""
+				if isProd(a) {
+					why = "the native product " + exprString(a)
+				} else if id, ok := unparen(a).(*ast.Ident); ok {
+					if p, ok := prodVar[info.Uses[id]]; ok {
+						why = fmt.Sprintf("%s, which accumulates a native product at %s", id.Name, c.Rel(p))
+					}
+				}
+				if why != "" {
+					out = append(out, violOb("SCALARMUL", key, c.Rel(call.Pos()), fmt.Sprintf("%s passes %s as the scalar of %s: the product wraps modulo 2^64 and then stands for a different integer modulo the primes of the ring", fkey, why, f.Name())))
+				} else {
+					out = append(out, okOb("SCALARMUL", key, c.Rel(call.Pos()), "the scalar is not a native uint64 product", true))
+				}
+			}
+			return true
+		})
+	})
+	c.Stats["scalarmul_sites"] = n
 	return out
 }
 
@@ -511,6 +628,14 @@ func init() {
 			out := scanRNSStore(c)
 			out = append(out, core.Floor("RNSSTORE", nil, "stores into RNS scalars", c.Stats["rnsstore_sites"], 7)...)
 			out = append(out, control(c, "RNSSTORE", scanRNSStore, "rnsBad")...)
+			return out
+		}})
+	core.Register(&core.Rule{Name: "SCALARMUL", Props: []string{"C15", "C01", "C07"},
+		Doc: "the uint64 scalar operand of a ring operation is never a product formed in native uint64 arithmetic (a*b, v *= b): such a product is only correct modulo 2^64",
+		Run: func(c *core.Ctx) []ob {
+			out := scanScalarMul(c)
+			out = append(out, core.Floor("SCALARMUL", nil, "uint64 scalar operands of ring operations", c.Stats["scalarmul_sites"], 12)...)
+			out = append(out, control(c, "SCALARMUL", scanScalarMul, "powBad")...)
 			return out
 		}})
 	core.Register(&core.Rule{Name: "RNDADVANCE", Props: []string{"C17", "C03"},
